@@ -116,3 +116,7 @@ Definition net_ok_b (nw : network) : bool := net_wf_b nw && durations_pos_b nw.
 Definition formation_limit (nw : network) (n : node_id) : option Z :=
   omin (match vtype_of nw (vehicle_type_for nw n) with Some vt => vt_limit vt | None => None end)
        (match nd nw n with NService s => st_limit s | _ => None end).
+
+(* service distances are finite (load always builds [Dist (rs_dist g)]) *)
+Definition dists_finite_b (nw : network) : bool :=
+  forallb (fun '(_, n) => match n_travel_dist n with Dist _ => true | DistInf => false end) (nw_nodes nw).
